@@ -84,6 +84,22 @@ def highs_optimum(case, z):
     return (float(r.fun) * (-1 if objs[z] == 1 else 1)) if r.status == 0 else None
 
 
+def run_function_api(case):
+    """The module-level function skcriteria.agg.simus.simus with plain Python containers (the class converts b to an
+    array first; a caller of the function need not)."""
+    from skcriteria.agg import simus as S
+    try:
+        mtx = np.array(case["matrix"], dtype=float)
+        objs = np.array(case["objectives"])
+        box = {"list": list, "tuple": tuple, "array": lambda v: np.array(v, dtype=object)}[case["b_box"]]
+        b = None if case["b"] is None else box(case["b"])
+        with I.quiet_fds():
+            out = S.simus(mtx, objs, b=b, rank_by=case["method"]["rank_by"])
+        return {"rank": [int(x) for x in out[0]], "m1": [float(x) for x in out[3]], "m2": [float(x) for x in out[4]]}
+    except Exception as e:  # noqa: BLE001
+        return {"error": repr(e)[:200]}
+
+
 def run(ctx):
     I.repo_check()
     ctx.rule = RULE
@@ -98,6 +114,18 @@ def run(ctx):
                           "user(" + ",".join(sorted({"none" if v is None else "zero" if v == 0 else "value" for v in c["b"]})) + ")"))
         cases.append(c)
     outs = I.pmap(M.evaluate, cases, chunksize=1)
+    for c in cases:
+        c["b_box"] = ctx.rng.choice(["list", "tuple", "array"])
+    fouts = I.pmap(run_function_api, cases, chunksize=1)
+    for c, o, fo in zip(cases, outs, fouts):
+        if "error" in o:
+            continue
+        if "error" in fo:
+            ctx.oracle_fail(c, {"oracle": f"simus() with b as a {c['b_box']} raised {fo['error']} where the class succeeds"})
+        elif fo["rank"] != [int(x) for x in o["values"]] or \
+                any(abs(x - y) > 1e-9 for x, y in zip(fo["m1"], o["extra"]["method_1_score"])):
+            ctx.oracle_fail(c, {"oracle": f"simus() with b as a {c['b_box']} gives ranking {fo['rank']} / scores {fo['m1']} but the "
+                                          f"class gives {list(o['values'])} / {o['extra']['method_1_score']}"})
     # ---- stage LPs from the model, exact certificates from the untrusted simplex --------------------
     lp_calls, own = [], []
     for k, c in enumerate(cases):
